@@ -601,7 +601,7 @@ Plan gen_c07(uint64_t seed, const GenOpts &o) {
     op.a = stop[0]; op.b = stop[1]; op.c = stop[2]; op.d = stop[3]; op.e = stop[4]; op.f = stop[5];
     if (g.chance(6)) {
       Kind k = (Kind) g.pick({ K_kill, K_poll, K_waitpid });
-      g.fault((int) g.p.ops.size() - 1, k, (int) g.r.range(1, 2), false, k == K_kill ? (int) g.pick({ EPERM, ESRCH }) : EINTR);
+      g.fault((int) g.p.ops.size() - 1, k, (int) g.r.range(1, 2), false, k == K_kill ? (int) g.pick({ EPERM, ESRCH }) : EINTR, k == K_poll ? (int) g.pick({ 0, 1, 5, 30 }) : 0);
     }
     if (g.chance(40)) { Op &op2 = g.op(OP_STOP, 0); op2.a = g.C.S_WAIT; op2.b = 0; }
   }
@@ -623,12 +623,19 @@ Plan gen_c15(uint64_t seed, const GenOpts &o) {
   // default policy without deadline and a child that never ends by itself would hang: make those rare but present
   if (dflt && s.deadline == 0 && T >= 100000 && !g.chance(5)) s.deadline = 40;
   if (dflt && c.term == ChildSpec::IGNORE && T >= 100000 && !g.chance(5)) { g.p.children[0].term = ChildSpec::DIE_AFTER; }
-  int state = (int) (seed % 7);  // 0 never started, 1 failed start, 2 running, 3 exited-unreaped, 4 reaped, 5 child side of fork, 6 NULL
+  int state = (int) (seed % 8);  // 7 = failed start (with deadline) followed by a successful one; 0 never started, 1 failed start, 2 running, 3 exited-unreaped, 4 reaped, 5 child side of fork, 6 NULL
   if (state != 6) g.op(OP_NEW, 0);
   if (state == 1) {
     StartSpec bad = s; bad.prog = 4;
     Op &st = g.op(OP_START, 0); st.spec = g.add_start(bad);
     if (g.chance(50)) { g.p.starts.back().prog = 0; add_random_fault(g, (int) g.p.ops.size() - 1, OP_START); }
+  } else if (state == 7) {
+    StartSpec bad = s; bad.prog = (int) g.pick({ 4, 5, 7 }); bad.deadline = (int) g.pick({ 5, 30, 80 });
+    Op &st1 = g.op(OP_START, 0); st1.spec = g.add_start(bad);
+    StartSpec good = s; good.deadline = g.chance(70) ? 0 : s.deadline;
+    if (good.deadline == 0 && dflt && T >= 100000) g.p.children[0] = child_quiet(g.pick({ 100, 150, 250 }), false, 4);
+    Op &st2 = g.op(OP_START, 0); st2.spec = g.add_start(good);
+    if (g.chance(40)) g.op(OP_SLEEP, -1).a = g.pick({ 1, 10, 40 });
   } else if (state >= 2 && state <= 5) {
     if (state == 5) { s.fork = true; s.argv_null = true; }
     Op &st = g.op(OP_START, 0); st.spec = g.add_start(s); st.a = state == 5 ? 1 : 0;
@@ -676,6 +683,10 @@ Plan gen_c08(uint64_t seed, const GenOpts &o) {
       case 3: case 4: { Op &op = g.op(OP_WAIT, (int) g.r.below((uint64_t) nh)); op.a = g.pick({ 0, 1, 20, 50, 100, (int64_t) g.C.DEADLINE_, (int64_t) g.C.DEADLINE_ }); break; }
       case 5: g.op(OP_SLEEP, -1).a = g.pick({ 1, 10, 20, 50, 100 }); break;
     }
+  }
+  if (g.chance(12)) {
+    for (size_t i = 0; i < g.p.ops.size(); i++)
+      if ((g.p.ops[i].kind == OP_POLL || g.p.ops[i].kind == OP_WAIT) && g.chance(40)) { g.fault((int) i, K_poll, 1, false, EINTR, (int) g.pick({ 0, 1, 5, 20, 60 })); break; }
   }
   for (int h = 0; h < nh; h++) g.op(OP_DESTROY, h);
   return g.p;
@@ -816,6 +827,18 @@ Plan gen_c11(uint64_t seed, const GenOpts &o) {
     g.op(OP_WAIT, t, t).a = 1000;
     g.op(OP_DESTROY, t, t);
   }
+  if (nthreads == 1 && lim <= 256 && g.chance(35)) {
+    // the limit is raised between two starts and a descriptor above the old limit is opened
+    uint64_t lim2 = lim + (uint64_t) g.pick({ 1, 8, 64, 300 });
+    Op &u = g.op(OP_USERFD, -1); u.a = 1; u.b = (int64_t) lim2;
+    Op &u2 = g.op(OP_USERFD, -1); u2.a = 2; u2.b = (int64_t) lim2 - 1; u2.c = 0;
+    if (g.chance(50)) { Op &u3 = g.op(OP_USERFD, -1); u3.a = 2; u3.b = (int64_t) g.r.range((int64_t) lim, (int64_t) lim2 - 1); u3.c = g.chance(30); }
+    g.op(OP_NEW, 0);
+    StartSpec s2 = simple_start(g, 0);
+    s2.stop[0] = g.C.S_KILL; s2.stop[1] = g.C.INFINITE_;
+    Op &st2 = g.op(OP_START, 0); st2.spec = g.add_start(s2);
+    g.op(OP_DESTROY, 0);
+  }
   return g.p;
 }
 
@@ -896,6 +919,7 @@ Plan gen_c17(uint64_t seed, const GenOpts &o) {
   s.stop[0] = g.C.S_KILL; s.stop[1] = g.C.INFINITE_;
   g.op(OP_NEW, 0);
   Op &st = g.op(OP_START, 0); st.spec = g.add_start(s);
+  if (g.chance(12)) g.fault(1, g.chance(70) ? K_fcntl_setfl : K_fcntl_getfl, (int) g.r.range(1, 4), false, (int) g.pick({ EINVAL, EPERM }));
   int n = (int) g.r.range(1, 10);
   for (int i = 0; i < n; i++) {
     switch (g.r.below(5)) {
